@@ -400,8 +400,8 @@ func main() {
 		cq.LoadReplay(f, &c)
 		addCase(c.Ops, "corpus")
 	}
-	n := o.Scale(1500, 60000)
-	nbig := o.Scale(6, 60)
+	n := o.Scale(1500, 20000)
+	nbig := o.Scale(6, 30)
 	if o.N > 0 {
 		nbig = 2
 	}
